@@ -123,7 +123,7 @@ def run_case(case):
                         continue
                     S = np.abs(R) + np.abs(A0) + 1e-300
                     scale = max(float(np.max(np.abs(R))), float(np.max(np.abs(A0))), 1e-300)
-                    err, bound, status = H.compare(T, R, np.full(R.shape, scale), scalar, 0.0, ops=4)
+                    err, bound, status = H.compare(T, R, np.full(R.shape, scale), scalar, getattr(comp, "table_delta", 0.0), ops=4)
                     if status == "degenerate":
                         count("degenerate_reference")
                         continue
